@@ -12,6 +12,10 @@ activation (default mock, new_callable) g = number of earlier successful activat
 object that is installed as is and shared by several patchers is {"ONew": [share, 0]} in every slot.  Every given /
 per-activation object carries its own body, so a call records WHICH object's code it reached (a shared function
 wrapped once per patcher records {"ONew": [share, 0]}).
+Behaviour (what the replacement's body does): BRaise | BRet (a plain tuple naming the object whose code ran and what it
+received) | a result of another KIND, made per call and remembered so that the probe can tell by IDENTITY whether a
+convention delivered the very object the body returned: BRetNone (None), BRetExc (an exception instance as data), BRetFut
+(a computed ConstFuture AS THE RESULT), BRetTask (a not yet started AsyncTask), BRetBatch (an unflushed batch item).
 Output: {"out": (per-op results, final own slot per target, #patches still registered as started),
          "obs": per-op observations for the monitors, "construct": per-patcher construction notes}
 """
@@ -22,7 +26,7 @@ import types
 from unittest import mock
 
 import _common
-from asynq import asynq, ConstFuture
+from asynq import asynq, ConstFuture, BatchBase, BatchItemBase
 from asynq.mock_ import patch
 
 SELF, CLS = -100, -200
@@ -65,6 +69,48 @@ def exn_id(e):
     return {"Unexpected": [{"s": type(e).__name__}]}
 
 
+RESULT_KINDS = ("BRetNone", "BRetExc", "BRetFut", "BRetTask", "BRetBatch")
+
+
+class _ResultBatch(BatchBase):
+    def _try_switch_active_batch(self):
+        pass
+
+    def _flush(self):
+        for item in self.items:
+            item.set_value(item.payload)
+
+    def _cancel(self):
+        pass
+
+
+class _ResultItem(BatchItemBase):
+    def __init__(self, batch, payload):
+        BatchItemBase.__init__(self, batch)
+        self.payload = payload
+
+
+def make_result(beh, payload):
+    """the object a replacement with a non-plain result kind returns for one call; `payload` is what a future among
+    them holds / would compute (so that 'one level too many was taken off' is recognisable)"""
+    if beh == "BRetNone":
+        return None
+    if beh == "BRetExc":
+        e = VErr(payload[2])
+        e.payload = payload
+        return e
+    if beh == "BRetFut":
+        return ConstFuture(payload)
+    if beh == "BRetTask":
+        @asynq()
+        def inner():
+            return payload
+        return inner.asynq()
+    if beh == "BRetBatch":
+        return _ResultItem(_ResultBatch(), payload)
+    raise ValueError(beh)
+
+
 PER_ACTIVATION = ("RDefault", "RNcMock", "RNcObj", "RNcSlots", "RNcNonCallable", "RNcFrozen", "RNcType", "RNcRaiser")
 REFUSING = ("RNcSlots", "RNcFrozen", "RNcType", "RNcRaiser")
 
@@ -76,6 +122,7 @@ def build_env(case):
     env.mod = types.ModuleType(env.modname)
     sys.modules[env.modname] = env.mod
     env.calls = []
+    env.results = []       # (behaviour, object, payload) per call of a replacement with a non-plain result kind
     env.tks = case["tks"]
 
     def canon(args):
@@ -162,7 +209,12 @@ def make_replacement(env, p, rk, beh, share=None):
         env.calls.append(({"ONew": [p, g]}, rec))
         if beh == "BRaise":
             raise VErr([p, g])
-        return ("ret", "new", [p, g], tuple(map(str, rec)))
+        payload = ("ret", "new", [p, g], tuple(map(str, rec)))
+        if beh == "BRet":
+            return payload
+        r = make_result(beh, payload)
+        env.results.append((beh, r, payload))
+        return r
     env.bodies[p] = gbody
 
     def body(*a):
@@ -372,9 +424,20 @@ def run_case(c):
         cs = []
         for cname, f in (("CSync", c_sync), ("CValue", c_value), ("CYield", c_yield), ("CAsyncio", c_asyncio)):
             del env.calls[:]
+            del env.results[:]
             try:
                 r = f()
-                outcome = ["ret", [r[0], r[1], r[2], list(r[3])] if isinstance(r, tuple) and len(r) == 4 and r[0] == "ret" else {"s": repr(r)[:60]}]
+                if len(env.results) == 1:
+                    # the body returned a remembered object: did the caller get that very object?
+                    rb, robj, rpay = env.results[0]
+                    if r is robj:
+                        outcome = ["ret", [rb, "new", rpay[2], list(rpay[3])]]
+                    elif r == rpay and rb != "BRetNone":
+                        outcome = ["ret", {"s": "inner value of the returned %s" % type(robj).__name__}, "unwrapped-" + rb]
+                    else:
+                        outcome = ["ret", {"s": repr(r)[:60]}, "not-the-returned-object-" + rb]
+                else:
+                    outcome = ["ret", [r[0], r[1], r[2], list(r[3])] if isinstance(r, tuple) and len(r) == 4 and r[0] == "ret" else {"s": repr(r)[:60]}]
             except _common.Hang:
                 raise
             except BaseException as e:
@@ -387,6 +450,10 @@ def run_case(c):
                 wtag = "orig" if "OOrig" in who else "new"
                 if outcome[0] == "ret" and outcome[1] == ["ret", wtag, wid, [str(x) for x in rec]]:
                     cs.append({"CReached": [who, rec, "BRet"]})
+                    continue
+                if outcome[0] == "ret" and len(outcome) == 2 and isinstance(outcome[1], list) and outcome[1][0] in RESULT_KINDS \
+                        and wtag == "new" and outcome[1][1:] == ["new", wid, [str(x) for x in rec]]:
+                    cs.append({"CReached": [who, rec, outcome[1][0]]})
                     continue
                 if outcome[0] == "raise" and outcome[1] == "VErr" and wtag == "new" and outcome[2] == wid:
                     cs.append({"CReached": [who, rec, "BRaise"]})
